@@ -31,7 +31,7 @@ def num(v):
     raise NotFoldable(f"constant {v!r}")
 
 
-def fold(expr, var, consts, depth=0):
+def fold(expr, var, consts, depth=0, funcs=None):
     """expr -> Mono in `var`; `consts` maps names to expression nodes (module-level assignments)"""
     if depth > 20:
         raise NotFoldable("depth")
@@ -41,14 +41,14 @@ def fold(expr, var, consts, depth=0):
         if expr.id == var:
             return Mono(1, 1)
         if expr.id in consts:
-            return fold(consts[expr.id], None, consts, depth + 1)
+            return fold(consts[expr.id], None, consts, depth + 1, funcs)
         raise NotFoldable(f"name {expr.id}")
     if isinstance(expr, ast.UnaryOp) and isinstance(expr.op, (ast.USub, ast.UAdd)):
-        m = fold(expr.operand, var, consts, depth + 1)
+        m = fold(expr.operand, var, consts, depth + 1, funcs)
         return Mono(-m.c if isinstance(expr.op, ast.USub) else m.c, m.k)
     if isinstance(expr, ast.BinOp):
-        a = fold(expr.left, var, consts, depth + 1)
-        b = fold(expr.right, var, consts, depth + 1)
+        a = fold(expr.left, var, consts, depth + 1, funcs)
+        b = fold(expr.right, var, consts, depth + 1, funcs)
         if isinstance(expr.op, ast.Mult):
             return Mono(a.c * b.c, a.k + b.k)
         if isinstance(expr.op, ast.Div):
@@ -63,12 +63,21 @@ def fold(expr, var, consts, depth=0):
             return Mono(a.c ** int(b.c), a.k * int(b.c))
         raise NotFoldable(f"operator {type(expr.op).__name__}")
     if isinstance(expr, ast.Call) and isinstance(expr.func, ast.Name) and expr.func.id == "float" and len(expr.args) == 1:
-        return fold(expr.args[0], var, consts, depth + 1)
+        return fold(expr.args[0], var, consts, depth + 1, funcs)
+    if isinstance(expr, ast.Call) and isinstance(expr.func, ast.Name) and funcs and expr.func.id in funcs and len(expr.args) == 1 and not expr.keywords:
+        # composition with another one-argument arithmetic function of the module: c2 * (c1 * v^k1)^k2
+        inner = fold(expr.args[0], var, consts, depth + 1, funcs)
+        outer = fold_function(funcs[expr.func.id], consts, funcs, depth + 1)
+        if outer.k < 0 and inner.c == 0:
+            raise NotFoldable("division by zero")
+        return Mono(outer.c * inner.c ** outer.k, inner.k * outer.k)
     raise NotFoldable(type(expr).__name__)
 
 
-def fold_function(fd, consts):
+def fold_function(fd, consts, funcs=None, depth=0):
     """a function `def f(v): [locals = ...]; return expr` -> Mono"""
+    if depth > 8:
+        raise NotFoldable("call depth")
     args = [a.arg for a in fd.args.args]
     if len(args) != 1:
         raise NotFoldable("not a one-argument function")
@@ -80,7 +89,7 @@ def fold_function(fd, consts):
             env[s.targets[0].id] = _Inline(s.value, args[0])
             continue
         if isinstance(s, ast.Return) and s.value is not None:
-            return _fold_inl(s.value, args[0], env)
+            return _fold_inl(s.value, args[0], env, funcs, depth)
         raise NotFoldable(f"statement {type(s).__name__}")
     raise NotFoldable("no return")
 
@@ -90,7 +99,7 @@ class _Inline:
         self.expr, self.var = expr, var
 
 
-def _fold_inl(expr, var, env):
+def _fold_inl(expr, var, env, funcs=None, depth=0):
     plain = {k: v for k, v in env.items() if not isinstance(v, _Inline)}
 
     class R(ast.NodeTransformer):
@@ -101,4 +110,4 @@ def _fold_inl(expr, var, env):
             return n
 
     e2 = R().visit(ast.parse(ast.unparse(expr), mode="eval").body)
-    return fold(e2, var, plain)
+    return fold(e2, var, plain, depth, funcs)
